@@ -379,6 +379,60 @@ def probe_f10(ctx):
             ctx.cell('f10-probe-fails-as-it-should')
 
 
+# an EARLIER statement without a want raises the very exception a LATER statement documents (finding F32): the doctest
+# fails at the earlier statement, nothing after it runs.  The documented statement is not an expression (those always
+# get a part of their own), the statements in between may or may not exist.
+EARLIER_FINALS = ['raise ValueError("same")', 'x = int("same")', 'del undefined_name_zz', 'assert False, "same"',
+                  'import no_such_module_zz']
+EARLIER_TRUE = {'raise ValueError("same")': ('raise ValueError("same")', 'ValueError: same'),
+                'x = int("same")': ('int("same")', "ValueError: invalid literal for int() with base 10: 'same'"),
+                'del undefined_name_zz': ('undefined_name_zz', "NameError: name 'undefined_name_zz' is not defined"),
+                'assert False, "same"': ('assert False, "same"', 'AssertionError: same'),
+                'import no_such_module_zz': ('import no_such_module_zz', "ModuleNotFoundError: No module named 'no_such_module_zz'")}
+
+
+def probe_earlier_raise(ctx):
+    from xdoctest import doctest_example
+    for final in EARLIER_FINALS:
+        early, line = EARLIER_TRUE[final]
+        for between in (0, 1, 2):
+            for lead in (0, 1):
+                L = ['>>> quiet(%d)' % (k + 1) for k in range(lead)]
+                L += ['>>> ' + early]
+                L += ['>>> quiet(%d)' % (50 + k) for k in range(between)]
+                L += ['>>> ' + final, 'Traceback (most recent call last):', line, '>>> quiet(99)']
+                doc = '\n'.join(L)
+                ctx.evaluation()
+                case = {'probe': 'earlier-raise', 'doc': doc}
+                dt = doctest_example.DocTest(doc)
+                rec = harness.run_doctest(dt, extra_ns=extra_ns())
+                s = rec.summary
+                exp_T = list(range(1, lead + 1))
+                if rec.raised is not None or not s['failed'] or rec.T != exp_T:
+                    ctx.violation('earlier-exception-credited', 'a statement WITHOUT a want raises the exception a later '
+                                  "statement's traceback want documents: the doctest must fail there with event log %r; observed "
+                                  '%s, event log %r\n%s' % (exp_T, harness.outcome(s) if rec.raised is None else repr(rec.raised),
+                                                            rec.T, doc), case)
+                else:
+                    ctx.cell('earlier-raise-fails-as-it-should')
+                    ctx.nontrivial_count(1)
+                # control: without the earlier statement the documented one is the expected exception, all else runs
+                L2 = [ln for ln in L if ln != '>>> ' + early or ln == '>>> ' + final]
+                if early == final:
+                    L2 = L[:lead] + L[lead + 1:]
+                doc2 = '\n'.join(L2)
+                ctx.evaluation()
+                rec = harness.run_doctest(doctest_example.DocTest(doc2), extra_ns=extra_ns())
+                exp_T2 = list(range(1, lead + 1)) + [50 + k for k in range(between)] + [99]
+                if rec.raised is not None or not rec.summary['passed'] or rec.T != exp_T2:
+                    ctx.violation('false-fail', 'an expected exception documented under a statement that is not an expression: '
+                                  'must pass with event log %r; observed %s, event log %r\n%s' % (
+                                      exp_T2, harness.outcome(rec.summary) if rec.raised is None else repr(rec.raised), rec.T, doc2),
+                                  {'probe': 'earlier-raise', 'doc': doc2})
+                else:
+                    ctx.cell('documented-exception-under-a-non-expression-passes')
+
+
 def required_cells(tier):
     cells = []
     for wf in WANTS:
@@ -388,6 +442,7 @@ def required_cells(tier):
     cells += ['kind:' + k for k in KINDS] + ['msg:' + m for m in MSGS] + ['pos:' + p for p in POSITIONS]
     cells += ['on_error:return', 'on_error:raise']
     cells += ['outcome-exception:' + n for n, _ in OUTCOME_RAISERS]
+    cells += ['earlier-raise-fails-as-it-should', 'documented-exception-under-a-non-expression-passes']
     return cells
 
 
@@ -457,6 +512,8 @@ def run_shard(ctx):
         probe_f10(ctx)
     if ctx.shard == 1 % ctx.nshards:
         probe_outcome_exceptions(ctx)
+    if ctx.shard == 2 % ctx.nshards:
+        probe_earlier_raise(ctx)
 
 
 def replay(case, ctx):
@@ -468,6 +525,9 @@ def replay(case, ctx):
         return
     if case.get('probe') == 'outcome':
         probe_outcome_exceptions(ctx)
+        return
+    if case.get('probe') == 'earlier-raise':
+        probe_earlier_raise(ctx)
         return
     run_cell(ctx, case['kind'], case['msg'], case['pos'], case['want_form'], tuple(case['flags']), case['ctxno'],
              case['on_error'])
